@@ -5,7 +5,7 @@
 (*  [pool (seq of contraction records [inputs, output, dim]),              *)
 (*   hashes (seq: class number of the implementation's fingerprint of each *)
 (*   pool member), method ("a" | "b"), hasdisk,                            *)
-(*   events (seq of [kind ("query" | "restart"), q (pool index), ow, co,   *)
+(*   events (seq of [kind ("query" | "restart" | "update"), q, ow, co,     *)
 (*     ran, outcome ("tree" | "KeyError"), runscore (rank of the score the *)
 (*     run produced, 0 if none), answer_run (run that created the entry    *)
 (*     the answer was built from, 0 if none), disk (set of fingerprint     *)
@@ -50,6 +50,19 @@ StepQuery ==
             THEN Verdict("stored-score-got-worse")
        ELSE /\ jm' = p.mem /\ jd' = p.disk /\ jr' = p.runs /\ pc' = pc + 1 /\ k' = k
 
+(* update_from_tree(tree, overwrite=Ev.ow): runscore = rank of the tree's score, answer_run = tag of the entry that is
+   in the cache for the fingerprint afterwards *)
+StepUpdate ==
+    /\ Live /\ pc >= 1 /\ pc <= Len(Case.events) /\ Ev.kind = "update"
+    /\ LET h == Case.hashes[Ev.q]
+           p == UpdatePolicy(jm, jd, jr, h, Ev.q, Ev.runscore, Ev.ow, Case.hasdisk) IN
+       IF p.entry.run # Ev.answer_run
+          THEN Verdict(IF p.stored THEN "update-not-stored" ELSE "update-stored-against-its-mode")
+       ELSE IF DOMAIN p.disk # Ev.disk THEN Verdict("directory-contents-differ")
+       ELSE IF Ev.ow = "improved" /\ \E g \in DOMAIN jd : p.disk[g].score > jd[g].score
+            THEN Verdict("stored-score-got-worse")
+       ELSE /\ jm' = p.mem /\ jd' = p.disk /\ jr' = p.runs /\ pc' = pc + 1 /\ k' = k
+
 Finish == Live /\ pc > Len(Case.events) /\ Verdict("ok")
-JNext == Begin \/ StepRestart \/ StepQuery \/ Finish
+JNext == Begin \/ StepRestart \/ StepQuery \/ StepUpdate \/ Finish
 =============================================================================
